@@ -206,6 +206,39 @@ def run(ctx):
         except Exception as e:   # noqa
             ctx.spec_fail('facet|raises', 'facet raised %r' % e, {'table': repr(T), 'field': f})
 
+    # ---- predicates that tell equal values apart (type, identity, repr), on columns of cross-type-equal values; expression strings
+    from decimal import Decimal as _D
+    EQV = [1, 1.0, True, _D('1'), 0, 0.0, False, (1, 'a'), (1.0, 'a'), 'a', None, 2]
+    for ci in range(200 if ctx.thorough() else 50):
+        hdr = rng.choice([['f', 'g'], ['1', '0'], ['0', '1'], [1, 0], ['2019', '2020'], ['g', 'f']])
+        rows = [tuple(rng.choice(EQV) for _ in hdr) for _ in range(rng.choice([2, 3, 5, 6]))]
+        T = [tuple(hdr)] + rows
+        fi = rng.randrange(len(hdr))
+        f = hdr[fi]
+        if isinstance(f, int):
+            fi = f          # an integer field selection is a position, whatever the header says
+        compl = rng.random() < 0.4
+        typ = rng.choice([int, float, bool, _D, str, tuple, type(None), (int, float)])
+        obj = rng.choice([None, True, False])
+        preds = [('selectisinstance', lambda: etl.selectisinstance(T, f, typ, complement=compl), lambda v: isinstance(v, typ)),
+                 ('selectis', lambda: etl.selectis(T, f, obj, complement=compl), lambda v: v is obj),
+                 ('selectisnot', lambda: etl.selectisnot(T, f, obj, complement=compl), lambda v: v is not obj),
+                 ('select(type)', lambda: etl.select(T, f, lambda v: type(v) is int, complement=compl), lambda v: type(v) is int),
+                 ('select(repr)', lambda: etl.select(T, f, lambda v: repr(v) == '1.0', complement=compl), lambda v: repr(v) == '1.0')]
+        if isinstance(f, str):
+            ref = rng.choice([1, 'a', None, 2])
+            preds.append(('select(expression)', lambda: etl.select(T, '{%s} == %r' % (f, ref), complement=compl), lambda v: v == ref))
+            preds.append(('biselect(expression)[0]', lambda: etl.biselect(T, '{%s} == %r' % (f, ref))[1 if compl else 0], lambda v: v == ref))
+        for name, thunk, p in preds:
+            got = util.run_show(thunk)
+            want = util.show_out([tuple(hdr)] + [r for r in rows if bool(p(r[fi])) != compl])
+            ctx.case((name, repr(T), repr(f), compl))
+            ctx.count('op:' + name)
+            if got != want:
+                ctx.spec_fail('%s|wrong-rows' % name.split('(')[0], '%s does not select exactly the rows of its documented predicate' % name,
+                              {'table': repr(T), 'field': repr(f), 'complement': compl, 'real': got, 'want': want,
+                               'argument': repr(typ if name == 'selectisinstance' else obj)})
+
 
 def replay(d):
     print('replay case:', d.get('case'))
